@@ -155,6 +155,9 @@ Definition set_k (t : thr) (k : prog) : thr :=
 Definition set_st (t : thr) (s : status) : thr :=
   Thr (t_k t) (t_conn t) (t_lvl t) (t_intx t) (t_view t) (t_regs t) (t_ifail t) (t_par t) s.
 
+Definition closed (t : thr) : thr :=
+  Thr (t_k t) None Unl false None (t_regs t) (t_ifail t) (t_par t) (t_st t).
+
 (* resolve the `if`s and run the local assignments; afterwards the head of the program is the
    statement that will be attempted next, or the program is finished.  Fuel = number of nodes. *)
 Fixpoint size_i (i : instr) : nat :=
@@ -167,7 +170,7 @@ Fixpoint size (l : list instr) : nat := match l with [] => 0 | x :: l' => size_i
 
 Fixpoint advance_f (n : nat) (k : prog) (t : thr) : thr :=
   match k with
-  | [] => set_st (set_k t []) Fin
+  | [] => set_st (set_k (closed t) []) Fin   (* parse() returns: the connection object is released *)
   | IS (SSet r b) :: k' =>
       match n with O => set_k t k | S n' => advance_f n' k' (set_reg t r b) end
   | IS _ :: _ => set_k t k
@@ -264,8 +267,6 @@ Record res := Res_ { r_thr : thr; r_path : option nat; r_store : list (option db
 Definition mk (t : thr) (c : cfg) (o : outcome) : res := Res_ t (c_path c) (c_store c) (c_viol c) o.
 Definition with_lock (t : thr) (l : lvl) (intx : bool) (v : option db) : thr :=
   Thr (t_k t) (t_conn t) l intx v (t_regs t) (t_ifail t) (t_par t) (t_st t).
-Definition closed (t : thr) : thr :=
-  Thr (t_k t) None Unl false None (t_regs t) (t_ifail t) (t_par t) (t_st t).
 Definition failed (t : thr) (e : err) : thr := set_st (closed t) (Err e).
 Definition pop (t : thr) : thr := set_k t (tl (t_k t)).
 
@@ -533,3 +534,127 @@ Fixpoint ty (l : list instr) (a : mode) : option mode :=
   end.
 
 Definition side_ok (p : prog) : bool := match ty p MClosed with Some _ => true | None => false end.
+
+(* ---------------- second side condition: layout knowledge (path-sensitive, no joins) ----------------
+   Along every path through the `if`s the typing tracks, per table, what the call KNOWS about the
+   layout it sees (its private view inside a write transaction, else the committed content):
+     VU nothing | VG expected layout | VB not the expected layout | VM missing
+   and, per python variable, where its value comes from (a constant, PRAGMA table_info of a table,
+   the sqlite_master lookup of a table; `mw`: read inside the write transaction that is still open).
+   Facts "expected layout" are stable for ever (a good table is never dropped, C02_layout_stable);
+   the negative facts VB/VM are only valid inside the write transaction in which they were read.
+   sch_ok demands:  DROP TABLE t only inside a write transaction in which t is KNOWN not to have
+   the expected layout (so the layout read that guards it is inside the same IMMEDIATE
+   transaction), CREATE TABLE t only after the call's own DROP of t in the same transaction, every
+   other statement on a table only where the table is known good, connect/close only outside
+   transactions.  Calls that skip the start-up check (CInit false) may assume both tables good. *)
+Inductive vk := VU | VG | VB | VM.
+Inductive rk := RTop | RConst (b : bool) | RInfoOf (t : tbl) (mw : bool) | RMasterOf (t : tbl) (mw : bool).
+Record ast := AS { a_mode : mode; a_vm : vk; a_vx : vk; a_regs : list (nat * rk) }.
+
+Definition tbl_eqb (a b : tbl) : bool :=
+  match a, b with TModels, TModels | TMeta, TMeta => true | _, _ => false end.
+Fixpoint lookup_rk (R : list (nat * rk)) (r : nat) : rk :=
+  match R with [] => RTop | (r', k) :: R' => if Nat.eqb r r' then k else lookup_rk R' r end.
+Definition getv (T : tbl) (s : ast) : vk := match T with TModels => a_vm s | TMeta => a_vx s end.
+Definition setv (T : tbl) (v : vk) (s : ast) : ast :=
+  match T with
+  | TModels => AS (a_mode s) v (a_vx s) (a_regs s)
+  | TMeta => AS (a_mode s) (a_vm s) v (a_regs s)
+  end.
+Definition setmode (a : mode) (s : ast) : ast := AS a (a_vm s) (a_vx s) (a_regs s).
+Definition setreg (s : ast) (r : nat) (k : rk) : ast := AS (a_mode s) (a_vm s) (a_vx s) ((r, k) :: a_regs s).
+Definition inval (T : tbl) (s : ast) : ast :=
+  AS (a_mode s) (a_vm s) (a_vx s)
+     (map (fun e => (fst e, match snd e with
+                            | RInfoOf T' _ | RMasterOf T' _ => if tbl_eqb T T' then RTop else snd e
+                            | k => k
+                            end)) (a_regs s)).
+Definition end_vk (v : vk) : vk := match v with VG => VG | _ => VU end.
+Definition txn_end (s : ast) : ast :=
+  AS (a_mode s) (end_vk (a_vm s)) (end_vk (a_vx s))
+     (map (fun e => (fst e, match snd e with
+                            | RInfoOf T _ => RInfoOf T false
+                            | RMasterOf _ _ => RTop
+                            | k => k
+                            end)) (a_regs s)).
+Definition is_vg (v : vk) : bool := match v with VG => true | _ => false end.
+Definition is_bad (v : vk) : bool := match v with VB | VM => true | _ => false end.
+Definition is_vm (v : vk) : bool := match v with VM => true | _ => false end.
+Definition is_mw (a : mode) : bool := mode_eqb a MW.
+Definition outside_tx (a : mode) : bool := mode_eqb a MClosed || mode_eqb a MN.
+
+Definition trs (s : stmt) (x : ast) : option ast :=
+  let a := a_mode x in
+  if negb (check s a) then None else
+  let x1 := setmode (trm s a) x in
+  match s with
+  | SConnect | SClose => if outside_tx a then Some x1 else None
+  | SRemove => None
+  | SIntegrity _ | SBegin _ => Some x1
+  | SSet r b => Some (setreg x1 r (RConst b))
+  | SRead (RMaster T) r => Some (setreg x1 r (RMasterOf T (is_mw a)))
+  | SRead (RInfo T) r => Some (setreg x1 r (RInfoOf T (is_mw a)))
+  | SRead RLookup r => if is_vg (a_vm x) then Some (setreg (setreg x1 r RTop) r_stale RTop) else None
+  | SRead RFetch _ => None
+  | SWrite (WDrop T) => if is_mw a && is_bad (getv T x) then Some (inval T (setv T VM x1)) else None
+  | SWrite (WCreate T) => if is_mw a && is_vm (getv T x) then Some (inval T (setv T VG x1)) else None
+  | SWrite WMetaKeys | SWrite WTouchMeta => if is_vg (a_vx x) then Some x1 else None
+  | SWrite WPrune | SWrite WTouchRow | SWrite (WInsert _) => if is_vg (a_vm x) then Some x1 else None
+  | SCommit => Some (if is_mw a then txn_end x1 else x1)
+  end.
+
+Definition assume_init (x : ast) : ast :=
+  if is_mw (a_mode x) then x else AS (a_mode x) VG VG (a_regs x).
+
+Fixpoint tys_f (n : nat) (k : prog) (x : ast) : bool :=
+  match n with
+  | O => false
+  | S n' =>
+    match k with
+    | [] => true
+    | IS s :: k' => match trs s x with Some x' => tys_f n' k' x' | None => false end
+    | IIf c th el :: k' =>
+        match c with
+        | CIFail => tys_f n' (el ++ k') x
+        | CInit => tys_f n' (th ++ k') x && tys_f n' (el ++ k') (assume_init x)
+        | CReg r =>
+            match lookup_rk (a_regs x) r with
+            | RConst true => tys_f n' (th ++ k') x
+            | RConst false => tys_f n' (el ++ k') x
+            | RInfoOf T mw =>
+                tys_f n' (th ++ k') (setreg (setv T VG x) r (RConst true)) &&
+                tys_f n' (el ++ k') (setreg (if mw then setv T VB x else x) r (RConst false))
+            | RMasterOf T mw =>
+                tys_f n' (th ++ k') (setreg x r (RConst true)) &&
+                tys_f n' (el ++ k') (setreg (if mw then setv T VM x else x) r (RConst false))
+            | RTop => tys_f n' (th ++ k') x && tys_f n' (el ++ k') x
+            end
+        | _ => tys_f n' (th ++ k') x && tys_f n' (el ++ k') x
+        end
+    end
+  end.
+
+Definition ast0 : ast := AS MClosed VU VU [].
+Definition sch_ok (p : prog) : bool := tys_f (S (S (size p))) p ast0.
+Definition side_ok_full (p : prog) : bool := side_ok p && sch_ok p.
+
+(* seeded change C02/m1: the layout reads of the start-up check are done without a lock and
+   BEGIN IMMEDIATE is taken only around DROP+CREATE *)
+Definition schema_tx_m1 (t : tbl) (rex rok : nat) : prog :=
+  [ IS (SRead (RMaster t) rex);
+    IS (SSet rok false);
+    IIf (CReg rex)
+      [ IS (SRead (RInfo t) r_cols);
+        IIf (CReg r_cols) [ IS (SSet rok true) ] [ IS (SSet rok false) ] ]
+      [];
+    IIf (CReg rok) [] [ IS (SBegin true); IS (SWrite (WDrop t)); IS (SWrite (WCreate t)); IS SCommit ] ].
+Definition prog_m1 : prog :=
+  [ IS SConnect;
+    IIf CInit (
+      [ IS (SIntegrity true) ] ++ schema_tx_m1 TModels r_mex r_mok ++ schema_tx_m1 TMeta r_xex r_xok ++
+      [ IS (SBegin true); IS (SWrite WMetaKeys); IS SCommit;
+        IS (SBegin false); IS (SWrite WPrune); IS SCommit ]) [];
+    IS (SBegin false); IS (SRead RLookup r_hit); IS SCommit;
+    IIf (CReg r_hit) [] [ IS (SBegin false); IS (SWrite (WInsert true)); IS SCommit ];
+    IS SClose ].
